@@ -50,6 +50,40 @@ pub fn child_recurse(args: &[String]) {
 }
 
 /// runs the child with a watchdog; returns (finished, captured stream or file content)
+/// child: `fvh child buflog <max> <len,len,…>` — the in-memory log target (`log_to_buffer`): logs one
+/// record per length and prints which records the snapshot holds afterwards (`index/length …`)
+pub fn child_buflog(args: &[String]) {
+    let max: usize = args[0].parse().unwrap();
+    let (boxed, handle) = Logger::with(LogSpecification::trace()).log_to_buffer(max, Some(crate::props::flw::raw_format)).build().unwrap();
+    for (i, len) in args[1].split(',').map(|x| x.parse::<usize>().unwrap()).enumerate() {
+        let mut m = if len == 0 { String::new() } else { format!("{i}:") };
+        while m.len() < len { m.push((b'a' + (i % 26) as u8) as char); }
+        boxed.log(&log::Record::builder().level(log::Level::Info).target("t").args(format_args!("{}", m)).build());
+    }
+    let mut snap = flexi_logger::Snapshot::new();
+    let _ = handle.update_snapshot(&mut snap);
+    let held: Vec<String> = snap.text.lines().map(|l| format!("{}/{}", l.split(':').next().unwrap_or("?"), l.len())).collect();
+    println!("{}", if held.is_empty() { "-".to_string() } else { held.join(" ") });
+    std::mem::forget(handle);
+    std::process::exit(0);
+}
+
+/// runs the child under a watchdog; `None` = it did not end within `secs` seconds
+pub fn run_buflog(max: &str, lens: &str, secs: u64) -> Option<String> {
+    let exe = std::env::current_exe().unwrap();
+    let mut child = std::process::Command::new(exe).arg("child").arg("buflog").arg(max).arg(lens)
+        .stdout(std::process::Stdio::piped()).stderr(std::process::Stdio::null()).spawn().expect("child");
+    let t0 = std::time::Instant::now();
+    let mut finished = false;
+    while t0.elapsed().as_secs() < secs {
+        if child.try_wait().unwrap().is_some() { finished = true; break; }
+        std::thread::sleep(std::time::Duration::from_millis(5));
+    }
+    if !finished { let _ = child.kill(); }
+    let o = child.wait_with_output().unwrap();
+    if finished { Some(String::from_utf8_lossy(&o.stdout).trim().to_string()) } else { None }
+}
+
 pub fn run_recurse(ctx_work: &std::path::Path, mode: &str, target: &str, secs: u64, depth: u32, crlf: bool) -> (bool, Vec<u8>) {
     let dir = ctx_work.join(format!("recurse-{}", std::process::id()));
     let _ = std::fs::remove_dir_all(&dir);
@@ -166,6 +200,22 @@ pub fn gen_c10(tier: &str, seed: u64) -> Vec<Vec<String>> {
         for depth in [2u32, 3, 5] {
             cases.push(vec![format!("CASE std C10 rec{i}d{depth}"), format!("RECURSE {mode} {target} {depth}"), "END".into()]);
         }
+    }
+    // (d) the in-memory log target: records of every length relative to the budget (empty, a few
+    //     bytes, exactly the budget, one more, several times the budget), in a child with a watchdog
+    let mut rootb = Rng::new(seed ^ 0xC10B);
+    for k in 0..(if tier == "thorough" { 400 } else { 40 }) {
+        let mut r = rootb.fork();
+        let max = *r.pick(&[10u64, 40, 100, 1000]);
+        let lens: Vec<String> = (0..r.range(3, 30)).map(|_| match r.below(8) {
+            0 => 0,
+            1 => max,
+            2 => max + 1,
+            3 => max * r.range(2, 4),
+            4 => (max / 2).max(4),
+            _ => r.range(4, max.max(6)),
+        }.to_string()).collect();
+        cases.push(vec![format!("CASE std C10 buf{k}"), format!("BUFLOG {max} {}", lens.join(",")), "END".into()]);
     }
     cases
 }
